@@ -37,3 +37,26 @@ def report_issues(run, models, tables=None):
 def where(m, fn):
     f = m.tb.fn(fn)
     return "%s (%s)" % (f.key, f.file) if f else "%s::%s" % (m.ev, fn)
+
+
+def check_chain(run, m, kind, surf, clause, rule):
+    """Compose surface -> token -> node -> eval arm and compare with the reference meaning."""
+    from .. import chain, thir as T
+    from ..pat import unify
+    from ..spec_terms import TABLES
+    ev = m.ev
+    pats = TABLES.get(ev, {}).get((kind, surf))
+    if pats is None:
+        return None
+    fn = {"bin": chain.binary_chain, "pre": chain.prefix_chain, "post": chain.postfix_chain, "fn": chain.function_chain}[kind]
+    r, err = fn(m, surf)
+    key = "meaning|%s|%s|%s" % (ev, kind, surf)
+    if r is None:
+        run.ob(False, key, rule, "%s %r" % (ev, surf), "chain broken: %s" % err)
+        return False
+    ctor, term = r
+    ok = any(unify(p, term) is not None for p in pats)
+    run.ob(ok, key, rule, "%s: %r -> Node::%s -> eval arm (%s)" % (ev, surf, ctor, where(m, "::ast::eval")),
+           "computes %s ; expected %s" % (T.show(term)[:260], " | ".join(T.show(p)[:200] for p in pats[:2])),
+           sample={"evaluator": ev, "surface": surf, "node": ctor, "term": T.show(term)[:200], "clause": clause} if len(run.samples) < 10 else None)
+    return ok
